@@ -79,7 +79,7 @@ impl ChecksumService for TestSvc {
 						continue
 					}
 					seen[pr.Target] = true
-					fmt.Fprintf(&arms, "%q => %s::%s(build_%s(tk)), ", pr.Target, en, pr.Target, pr.Target)
+					fmt.Fprintf(&arms, "%q => %s::%s(build_%s(tk)), ", pr.Target, en, strcase.ToCamel(pr.Target), pr.Target)
 				}
 				one = "{ let name = tk.next(); match name.as_str() { " + arms.String() + "_ => panic!(\"payload\") } }"
 			}
@@ -145,7 +145,7 @@ impl ChecksumService for TestSvc {
 							continue
 						}
 						seen[pr.Target] = true
-						fmt.Fprintf(&arms, "%s::%s(x) => { out.push(%q.to_string()); dump_%s(x, out); } ", en, pr.Target, pr.Target, pr.Target)
+						fmt.Fprintf(&arms, "%s::%s(x) => { out.push(%q.to_string()); dump_%s(x, out); } ", en, strcase.ToCamel(pr.Target), pr.Target, pr.Target)
 					}
 					return "match &" + x + " { " + arms.String() + "}"
 				}
